@@ -337,6 +337,7 @@ func c11(r *Report) propMeta {
 
 	r.Rule("C11.R7", "E16 tick conversion: shift counts cannot wrap")
 	r.UnsignedSubGuarded("shift-counts", "pkg/tickmath.PriceToTick", 2)
+	r.NormalisedBeforeSquaring("mantissa-normalised", "pkg/tickmath.PriceToTick")
 
 	return propMeta{
 		Decided: []string{
@@ -345,7 +346,7 @@ func c11(r *Report) propMeta {
 			"R3 every success return of every content handler starts with its tag (or delegates to EncodeTSS whose returns do); each encoder constant selects its own tag and its own packing; feeds/tunnel/oracle contents are built from the on-chain prices/result/packet fields; wrapHandler prepends a per-call selector (no shared buffer)",
 			"R4 RequestSignature creates a signing only for !content.IsInternal(); IsInternal()==false exactly for {Text, Feeds, OracleResult}; every RouterKey has an AddRoute registration",
 			"R5 tickmath: x96 table entries == floor(2^96·(10000/10001)^(2^i)), q96 = 2^96, maxUint192 = 2^192-1, MaxTick/MinTick/Offset consistent",
-			"R7 in PriceToTick every unsigned subtraction (the two shift counts msb-31 / 31-msb) is implied non-wrapping by the comparison that selects its branch, constants included (a wrapped shift count zeroes the mantissa and maps a whole price band to one tick)",
+			"R7 in PriceToTick every unsigned subtraction (the two shift counts msb-31 / 31-msb) is implied non-wrapping by the comparison that selects its branch, constants included (a wrapped shift count zeroes the mantissa and maps a whole price band to one tick); every path into the squaring loop carries the price shifted by an msb-derived count (no gap in the case split)",
 		},
 		Undecided: []string{"round-trip decoding of every payload (ABI/protobuf libraries)", "PriceToTick numerics: largest tick with price <= input for every price (bit-level arithmetic) — e.g. an off-by-one in the msb search is NOT detected"},
 		Assume:    []string{"go-ethereum abi packing and gogoproto marshalling are injective for their schemas", "local Keccak-f implementation (unit-tested against known vectors)"},
